@@ -174,26 +174,30 @@ class AesRules:
         rec.saw(I)
         where = '%s:%s' % (f['file'], f['line'])
         key = 'R09.%s@%s::%s' % ('e' if which == 'enc' else 'd', fkey(f), 'fips197-cipher' if which == 'enc' else 'fips197-invcipher')
-        if I.fail or I.unmodelled or len(res) != 1:
+        if I.fail or I.unmodelled or not res or len(res) > 8:
             rec.ob('R09.' + ('e' if which == 'enc' else 'd'), key, None, where, 'term evaluation incomplete: %s %s (%d paths)' % (I.fail[:2], I.unmodelled[:2], len(res)))
             return
-        s = res[0][0]
         # FIPS words from the round-key state cells: w[4r+j] byte i = cell (i, j) = offset 4i+j
         w = [[rk[r][4 * i + j] for i in range(4)] for r in range(11) for j in range(4)]
         A = TermAlg(ts)
         want = spec.cipher(A, bb, w) if which == 'enc' else spec.inv_cipher(A, bb, w)
         bad = []
-        for i in range(16):
-            got = s.mem.get((BLK, (i,)))
-            gid = I.tid(got) if got is not None else None
-            if gid != want[i]:
-                v = compare_terms(ts, gid, want[i]) if gid is not None else 'missing'
-                bad.append((i, v if v in ('undecided', 'missing') else 'differs, e.g. for %s: code %02x, FIPS-197 %02x' % (v[1], v[2] & 0xff, v[3] & 0xff)))
-        und = [b for b in bad if b[1] == 'undecided']
+        # one path, or several when the code tests something the analysis leaves open (the alignment of the block pointer, say):
+        # the claim is for every such path
+        for s, _ in res:
+            for i in range(16):
+                got = s.mem.get((BLK, (i,)))
+                gid = I.tid(got) if got is not None else None
+                if gid != want[i]:
+                    v = compare_terms(ts, gid, want[i]) if gid is not None else 'missing'
+                    pth = ' on the path %s' % [str(x) for x in s.trace[-2:]] if len(res) > 1 else ''
+                    bad.append((i, (v if v in ('undecided', 'missing') else 'differs, e.g. for %s: code %02x, FIPS-197 %02x' % (v[1], v[2] & 0xff, v[3] & 0xff)) + pth))
+        und = [b for b in bad if b[1].startswith('undecided')]
         ok = not bad
         rec.ob('R09.' + ('e' if which == 'enc' else 'd'), key, (None if bad and len(und) == len(bad) else ok), where,
-               '%s: 16 output bytes as terms over 16 free block bytes and 176 free round-key bytes equal FIPS-197 %s: %s' % (
-                   sub['q'], 'Cipher (5.1)' if which == 'enc' else 'InvCipher (5.3)', 'all equal' if ok else 'NO: %d byte(s), first byte %d: %s' % (len(bad), *bad[0])))
+               '%s: 16 output bytes as terms over 16 free block bytes and 176 free round-key bytes equal FIPS-197 %s%s: %s' % (
+                   sub['q'], 'Cipher (5.1)' if which == 'enc' else 'InvCipher (5.3)', ' on each of %d paths' % len(res) if len(res) > 1 else '',
+                   'all equal' if ok else 'NO: %d byte(s), first byte %d: %s' % (len(bad), *bad[0])))
         rec.extra.setdefault('tier2', {})[which] = {'term_nodes': len(ts.nodes), 'root_dag_size': ts.size(want[0]), 'oob': ts.oob[:3]}
         if ts.oob:
             rec.ob('R09.t', 'R09.t@%s::table-index-in-bounds' % fkey(f), False, where, 'table subscript may leave its table: %s' % (ts.oob[:3],))
